@@ -13,8 +13,9 @@ EXTENDS TraceBase
 VARIABLES l, bad
 
 Ok(e) == /\ e.ret = ""
+         /\ e.pre_kept                      \* a record begun earlier in the day is continued, never truncated (file_* describe what follows it)
          /\ e.out_len = e.in_len /\ e.out_sha = e.in_sha
-         /\ (e.in_len > 0 => e.has_file)
+         /\ (e.in_len + e.pre_len > 0 => e.has_file)
          /\ e.file_len = e.in_len /\ (e.has_file => e.file_sha = e.in_sha)
          /\ (e.small => e.out = e.in /\ (e.has_file => e.file = e.in))
          /\ (e.live => e.live_complete)     \* not delayed indefinitely: a burst is passed through while stdin is still open
